@@ -1,7 +1,6 @@
 /-
   C03 proofs, part 4: memory and store stay coherent along EVERY history of moves (any choices, any fault indices, stale
-  listers, delayed / dropped events, restarts) - the only proviso being that the fault of a reload does not hit one of
-  its store deletes (`reloadsClean`).  Unlike `Galaxy.Plugin.Inv` (C04) this needs no assumption about binds.
+  listers, delayed / dropped events, reloads, restarts).  Unlike `Galaxy.Plugin.Inv` (C04) this needs no side condition.
 -/
 import Galaxy.Lemmas.C03Resync
 
@@ -146,29 +145,34 @@ theorem coh_releasePre (s : State) (node : String) (ip : IP) (k : Key) (h : Cohe
     · exact reserve_coherent _ _ _ _ uq
   · exact h
 
+theorem coh_releaseAct (s1 : State) (ip : IP) (k : Key) (uid : Nat) (node : String) (h : Coherent s1) :
+    Coherent (releaseAct Facts.good s1 ip k uid node).1 := by
+  have kq := (keyOwned_quiet Facts.good s1 k uid).1.coherent h
+  have rp := coh_releasePre (keyOwnedByRunningPod Facts.good s1 k uid).1 node ip k kq
+  unfold releaseAct
+  split
+  · exact kq
+  · split
+    · exact release_coherent _ _ _ rp
+    · exact rp
+
 theorem coh_apiRelease (s : State) (ip : IP) (k : Key) (h : Coherent s) : Coherent (apiRelease Facts.good s ip k).1 := by
   have pq := (podRunning_quiet Facts.good s k.pod k.ns (((s.alloc.get ip).map (·.uid)).getD 0)).1.coherent h
-  have rp := coh_releasePre (podRunning Facts.good s k.pod k.ns (((s.alloc.get ip).map (·.uid)).getD 0)).1
-    (((s.alloc.get ip).map (·.node)).getD "") ip k pq
   unfold apiRelease
   split
   · exact h
   · split
     · exact pq
-    · split
-      · exact release_coherent _ _ _ rp
-      · exact rp
+    · exact coh_releaseAct _ ip k _ _ pq
 
-theorem coh_configurePool (s : State) (ps : List Pool) (h : Coherent s) (hsp : s.fault = 0 ∨ s.fault ≤ s.calls + 1) :
-    Coherent (configurePool s ps).1 := by
+theorem coh_configurePool (s : State) (ps : List Pool) (h : Coherent s) : Coherent (configurePool s ps).1 := by
   cases hok : (configurePool s ps).2 with
-  | true => exact (configurePool_ok s ps h hsp hok).coherent
+  | true => exact (configurePool_ok' s ps hok).coherent
   | false => rw [configurePool_fail s ps hok]; exact coherent_of_eq h rfl rfl rfl rfl
 
-theorem coh_reload (s : State) (pools : List Pool) (h : Coherent s) (hsp : s.fault = 0 ∨ s.fault ≤ s.calls + 2) :
-    Coherent (reload s pools).1 := by
+theorem coh_reload (s : State) (pools : List Pool) (h : Coherent s) : Coherent (reload s pools).1 := by
   have h1 : Coherent s.api.1 := coherent_of_eq h rfl rfl rfl rfl
-  have hc := coh_configurePool s.api.1 pools h1 (by simp only [api_fault, api_calls]; omega)
+  have hc := coh_configurePool s.api.1 pools h1
   unfold reload
   dsimp only
   split
@@ -179,16 +183,12 @@ theorem coh_reload (s : State) (pools : List Pool) (h : Coherent s) (hsp : s.fau
       · exact hc
       · exact coherent_of_eq hc rfl rfl rfl rfl
 
-theorem coh_restart (s : State) (h : Coherent s) (hf : s.fault = 0) : Coherent (restart s).1 := by
+theorem coh_restart (s : State) (h : Coherent s) : Coherent (restart s).1 := by
   unfold restart
-  exact coh_configurePool (restartBase s) s.pools (coherent_of_eq h rfl rfl rfl rfl) (Or.inl hf)
+  exact coh_configurePool (restartBase s) s.pools (coherent_of_eq h rfl rfl rfl rfl)
 
-/-- the proviso for one move -/
-def reloadOK : Move → Bool
-  | .reload _ fault => decide (fault ≤ 2)
-  | _ => true
-
-theorem coh_step (s : State) (m : Move) (h : Coherent s) (hm : reloadOK m = true) : Coherent (step Facts.good s m).1 := by
+/-- memory and store stay coherent under EVERY move -/
+theorem coh_step (s : State) (m : Move) (h : Coherent s) : Coherent (step Facts.good s m).1 := by
   cases m with
   | createPod ns name kind app pool policy ranges wants =>
     simp only [step]; split
@@ -229,32 +229,21 @@ theorem coh_step (s : State) (m : Move) (h : Coherent s) (hm : reloadOK m = true
   | resync order f pf => exact coh_resync _ order (coh_withFaults s f pf h)
   | syncPodIPs f => exact coh_syncPods _ _ (coh_withFaults s f 0 h)
   | apiRelease ip k f pf => exact coh_apiRelease _ ip k (coh_withFaults s f pf h)
-  | reload pools fault =>
-    have hf : fault ≤ 2 := by simpa [reloadOK] using hm
-    exact coh_reload _ pools (coh_withFaults s fault 0 h) (by
-      show fault = 0 ∨ fault ≤ 0 + 2
-      omega)
-  | restart => exact coh_restart _ (coh_withFaults s 0 0 h) rfl
+  | reload pools fault => exact coh_reload _ pools (coh_withFaults s fault 0 h)
+  | restart => exact coh_restart _ (coh_withFaults s 0 0 h)
 
-theorem coh_next (s : State) (m : Move) (h : Coherent s) (hm : reloadOK m = true) : Coherent (next Facts.good s m) := by
+theorem coh_next (s : State) (m : Move) (h : Coherent s) : Coherent (next Facts.good s m) := by
   unfold next
   dsimp only
   split
   · exact h
-  · exact coh_step s m h hm
+  · exact coh_step s m h
 
-theorem reloadsClean_cons (m : Move) (ms : List Move) (h : reloadsClean (m :: ms) = true) :
-    reloadOK m = true ∧ reloadsClean ms = true := by
-  cases m <;> simp_all [reloadsClean, reloadOK]
-
-theorem coh_run : ∀ (ms : List Move) (s : State), Coherent s → reloadsClean ms = true → Coherent (run Facts.good s ms) := by
+theorem coh_run : ∀ (ms : List Move) (s : State), Coherent s → Coherent (run Facts.good s ms) := by
   intro ms
   induction ms with
-  | nil => intro s h _; exact h
-  | cons m t ih =>
-    intro s h hc
-    obtain ⟨h1, h2⟩ := reloadsClean_cons m t hc
-    exact ih _ (coh_next s m h h1) h2
+  | nil => intro s h; exact h
+  | cons m t ih => intro s h; exact ih _ (coh_next s m h)
 
 theorem coh_init (c : Conf) : Coherent (init c) := (inv_init c).coh
 
